@@ -474,6 +474,11 @@ def check(prop, tier):
                     a = arm_of(i)
                 seed, opts, cmd = job_cmd(i, a)
                 res, crash = w.run(cmd, spec.get("run_timeout_s", 120))
+                if res and res.get("leak") and "leak of" not in res["leak"]:
+                    # with log_path set LeakSanitizer writes its report to the worker's log file, not to the captured fd 2
+                    txt = read_san_logs(w.logprefix, w.proc.pid)
+                    if txt:
+                        res["leak"] = txt
                 plan_text = None
                 viols = []
                 own = crash is not None or (res and (res.get("leak") or res.get("harness_error") or any(v["prop"] == prop for v in res.get("violations", []))))
